@@ -61,7 +61,12 @@ func (tr TemplatedRegexp) Expand(rule parser.Rule) (*regexp.Regexp, error) {
 }
 
 func (tr TemplatedRegexp) MustExpand(rule parser.Rule) *regexp.Regexp {
-	re, _ := tr.Expand(rule)
+	re, err := tr.Expand(rule)
+	if err != nil {
+		// Values taken from the rule (labels, annotations) can turn a valid template into an invalid regexp,
+		// use a pattern that never matches in that case.
+		return regexp.MustCompile(`[^\s\S]`)
+	}
 	return re
 }
 
